@@ -877,7 +877,7 @@ def run(ctx):
     descs = corpus()
     n_corpus = len(descs)
     mix = (["plain"] * 4 + ["comp"] * 3 + ["delay"] * 2 + ["tensor"] + ["lowrank"])
-    n_rand = ctx.scaled(90, 1500)
+    n_rand = ctx.scaled(70, 1800)
     for i in range(n_rand):
         descs.append(gen_model(ctx.rng, mix[i % len(mix)]))
     # the listed known findings ride along in the same child (S4 without extra start-ups)
@@ -945,7 +945,7 @@ def run(ctx):
     ctx.oblige("correspondence:all-cases-encoded", len(ctx.notes.get("not_encoded", [])) * 20 <= len(cases),
                str(ctx.notes.get("not_encoded", [])[:3]))
     t1 = _t.time()
-    bad = core.coq_eval_cases(ctx, "exp", PREAMBLE, CASE_TYPE, enc, "check_case", shard=ctx.scaled(15, 40))
+    bad = core.coq_eval_cases(ctx, "exp", PREAMBLE, CASE_TYPE, enc, "check_case", shard=ctx.scaled(10, 30))
     ctx.notes["phase_s"]["coq_correspondence"] = round(_t.time() - t1, 1)
     mism = None if bad is None else [enc_idx[j] for j in bad]
     ctx.oblige("correspondence:model-vs-_expand_vectors", mism == [],
